@@ -285,18 +285,23 @@ def swLoop (adj : List Link) (t : List TEdge) (conns : Conns) : List Nat → Pre
     | none => swLoop adj t conns r acc
     | some ports => swLoop adj t conns r (portLoop adj (treePorts t sw) sw ports acc)
 
-/-- `_update_tree()`; an exception of `_calc_spanning_tree` leaves `_prev` alone and sends nothing -/
-def updateTree (adj : List Link) (order : List Nat) (conns : Conns) (pv : Prev) : Except String (Prev × List PortMod) :=
+/-- the switches one `_update_tree()` goes through, in order -/
+def visited (all : Bool) (t : List TEdge) (conns : Conns) : List Nat := if all then conns.map (·.1) else treeKeys t
+
+/-- `_update_tree()`; an exception of `_calc_spanning_tree` leaves `_prev` alone and sends nothing.
+    `all = false`: `for sw, ports in tree.items()` (switches of the tree only, :189).
+    `all = true`: the repair C19-2, `for con in core.openflow.connections` with `tree.get(sw, ())` — every connected switch. -/
+def updateTree (all : Bool) (adj : List Link) (order : List Nat) (conns : Conns) (pv : Prev) : Except String (Prev × List PortMod) :=
   match calcTreeL adj order with
   | .error e => .error e
-  | .ok t => .ok (swLoop adj t conns (treeKeys t) (pv, []))
+  | .ok t => .ok (swLoop adj t conns (visited all t conns) (pv, []))
 
 /-- `_update_tree()` when `con.send` raises: `failAt = some k` makes the (k+1)-th port_mod of this call raise.  The loops are
     sequential and do not look at the outcome of a send, so the k port_mods before it are exactly the first k of the undisturbed
     run; the `except:` clause (:225-227) then clears ALL of `_prev` and the function returns normally. -/
-def updateTreeF (adj : List Link) (order : List Nat) (conns : Conns) (pv : Prev) (failAt : Option Nat) :
+def updateTreeF (all : Bool) (adj : List Link) (order : List Nat) (conns : Conns) (pv : Prev) (failAt : Option Nat) :
     Except String (Prev × List PortMod) :=
-  match updateTree adj order conns pv with
+  match updateTree all adj order conns pv with
   | .error e => .error e
   | .ok r =>
     match failAt with
